@@ -30,3 +30,18 @@ func (b *bitPattern) Bit(pos int) byte {
 		return '1'
 	}
 }
+
+// Matches determines whether or not a bitstring of whole characters matches the pattern character by character.
+func (b *bitPattern) Matches(c *bitString) bool {
+	if b.len != c.len {
+		return false
+	}
+
+	for i, p := range b.bits {
+		if p != '*' && p != c.bits[i] {
+			return false
+		}
+	}
+
+	return true
+}
